@@ -46,6 +46,10 @@ CHECKS = {
  'C13': dict(seed_offset=13, level='exploration', rule=RULE_A, props=['C13'],
              batches=[dict(profile='svx', flavour='plain', quick=40000, thorough=2000000)],
              must_probe=['svx_berr_checked', 'svx_berr_small_checked', 'svx_ferr_checked']),
+ 'C08': dict(seed_offset=8, level='exploration', rule=RULE_A + "; a case here is a history of 2..8 operations over one sparsity pattern (first factorization, refactorizations with new values and optional pivot reuse, solves with existing factors, destroy + first factorization again), nprocs/strategy/schedule drawn anew per operation",
+             props=['C08', 'C01', 'C02', 'C09', 'C07'],
+             batches=[dict(profile='hist', flavour='plain', quick=25000, thorough=1500000), dict(profile='hist', flavour='asan', quick=2500, thorough=100000)],
+             must_probe=['refactorizations', 'factored_calls', 'factor_reuse_solves_checked', 'usepr_all_old_pivots_pass', 'usepr_old_pivot_fails', 'user_workspace_calls']),
  'C09': dict(seed_offset=9, level='exploration', rule=RULE_A, props=['C09'],
              batches=[dict(profile='strf', flavour='plain', quick=60000, thorough=3000000), dict(profile='ssv', flavour='plain', quick=20000, thorough=1000000)],
              must_probe=['factorizations_checked', 'numbering_ne_storage_order']),
